@@ -210,7 +210,9 @@ pub fn plan(seed: u64, corpus: &[Input], thorough: bool) -> Plan {
     let mut slots: Vec<Slot> = (0..cfg.n_procs)
         .map(|_| Slot { world: None, gen: 0, workers: vec![None; cfg.workers_per_proc], next_wid: 0 })
         .collect();
-    let mut clock_s: i64 = 0;
+    // W0 runs at the canonical time (the hosts' default, 1_700_000_000); other worlds start anywhere
+    // from 1970 to past 2100, including the 2038 boundary
+    let mut clock_s: i64 = 1_700_000_000;
 
     let draw_entropy = |rng: &mut Rng, mode: u8| -> u64 {
         match mode {
@@ -248,6 +250,20 @@ pub fn plan(seed: u64, corpus: &[Input], thorough: bool) -> Plan {
             let wi = worlds.len();
             worlds.push(World { name: format!("p{}g{}", si, slots[si].gen), env, ops: vec![] });
             slots[si].world = Some(wi);
+            if cfg.clock_jump {
+                clock_s = match rng.below(8) {
+                    0 => 0,
+                    1 => 946_684_800,
+                    2 => 2_147_483_647 - rng.below(3) as i64,
+                    3 => 2_147_483_648 + rng.below(1000) as i64,
+                    4 => 4_102_444_800 + rng.below(86_400 * 365) as i64,
+                    5 => -(rng.below(86_400 * 365 * 30) as i64),
+                    _ => rng.below(1 << 32) as i64,
+                };
+                worlds[wi].ops.push(Op::Clock { s: clock_s, ns: rng.below(1_000_000_000) as i64 });
+                order.push(wi);
+                bump("clock_jump");
+            }
             if cfg.pid_change {
                 let pid = rng.range(2, 4_000_000) as i64;
                 worlds[wi].ops.push(Op::Pid { pid });
